@@ -205,10 +205,11 @@ def run_job(job):
             import cdd.pydantic.emit
 
             node = cdd.pydantic.emit.pydantic(copy.deepcopy(ir), class_name="C")
-        elif fmt == "function":
+        elif fmt in ("function", "function_edd"):
             import cdd.function.emit
 
-            node = cdd.function.emit.function(copy.deepcopy(ir), function_name="f", function_type="static")
+            node = cdd.function.emit.function(copy.deepcopy(ir), function_name="f", function_type="static",
+                                              **({"emit_default_doc": True} if fmt == "function_edd" else {}))
         elif fmt == "argparse":
             import cdd.argparse_function.emit
 
